@@ -1,0 +1,146 @@
+//go:build verif
+
+// Contracts for the contract-based verification in /verif (comment-only file).
+
+package grpc
+
+//@ import net "net"
+//@ import context "context"
+//@ import peer "google.golang.org/grpc/peer"
+//@ import drkey "github.com/scionproto/scion/pkg/drkey"
+//@ import addr "github.com/scionproto/scion/pkg/addr"
+//@ import timestamppb "google.golang.org/protobuf/types/known/timestamppb"
+
+//@ # ---- C40: keys are handed out only to the entity they are bound to.
+//@ macro tcpOK0(a) = (typeis(a, *net.TCPAddr) ==> asptr(a, *net.TCPAddr) != nil)
+//@ # Assumed library facts (extern): net.IP.Equal is the equality of an abstract address value ipVal (it is an
+//@ # equivalence: 4-byte and 16-byte forms of an IPv4 address are the same value); net.ParseIP is a function of its text.
+//@ spec func ipVal(ip net.IP) uint64 uninterpreted
+//@ spec func parsedIP(s string) uint64 uninterpreted
+//@ extern net.ParseIP
+//@   modifies nothing
+//@   ensures ipVal(result) == parsedIP(s)
+//@ extern (net.IP).Equal
+//@   modifies nothing
+//@   ensures result == (ipVal(ip) == ipVal(x))
+//@ # the peer of an RPC is a function of its context
+//@ spec func ctxPeer(ctx context.Context) *peer.Peer uninterpreted
+//@ extern google.golang.org/grpc/peer.FromContext
+//@   modifies nothing
+//@   ensures result1 ==> result0 == ctxPeer(ctx) && result0 != nil
+//@   ensures result1 ==> tcpOK0(result0.Addr)
+//@ extern (*google.golang.org/protobuf/types/known/timestamppb.Timestamp).CheckValid
+//@   modifies nothing
+//@ extern (*google.golang.org/protobuf/types/known/timestamppb.Timestamp).AsTime
+//@   modifies nothing
+//@ extern google.golang.org/protobuf/types/known/timestamppb.New
+//@   modifies nothing
+
+//@ # a peer address of dynamic type *net.TCPAddr is not a nil pointer (assumed of grpc; required by the validators)
+//@ macro tcpOK(a) = (typeis(a, *net.TCPAddr) ==> asptr(a, *net.TCPAddr) != nil)
+//@ # the requester's address as the server sees it: the IP of the TCP peer
+//@ macro isTCP(a) = (typeis(a, *net.TCPAddr) && asptr(a, *net.TCPAddr) != nil)
+//@ macro peerIs(a, host) = (isTCP(a) && ipVal(asptr(a, *net.TCPAddr).IP) == parsedIP(host))
+
+//@ # authorisation predicates, written from the property statement
+//@ macro authASHost(m, local, a) = (m.ProtoId != drkey.Generic && m.DstIA == local && peerIs(a, m.DstHost))
+//@ macro authHostAS(m, local, a) = (m.ProtoId != drkey.Generic && m.SrcIA == local && peerIs(a, m.SrcHost))
+//@ macro authHostHost(m, local, a) = (m.ProtoId != drkey.Generic && ((m.SrcIA == local && peerIs(a, m.SrcHost)) || (m.DstIA == local && peerIs(a, m.DstHost))))
+
+//@ func hostAddrFromPeer
+//@   props C40
+//@   requires tcpOK(peerAddr)
+//@   modifies nothing
+//@   ensures isTCP(peerAddr) ==> result1 == nil
+//@   ensures result1 == nil ==> isTCP(peerAddr) && sameArray(result0, asptr(peerAddr, *net.TCPAddr).IP) && len(result0) == len(asptr(peerAddr, *net.TCPAddr).IP)
+//@   ensures result1 == nil ==> ipVal(result0) == ipVal(asptr(peerAddr, *net.TCPAddr).IP)
+
+//@ func validateASHostReq
+//@   props C40
+//@   requires tcpOK(peerAddr)
+//@   modifies nothing
+//@   ensures result == nil ==> authASHost(meta, localIA, peerAddr)
+//@   ensures authASHost(meta, localIA, peerAddr) ==> result == nil
+
+//@ func validateHostASReq
+//@   props C40
+//@   requires tcpOK(peerAddr)
+//@   modifies nothing
+//@   ensures result == nil ==> authHostAS(meta, localIA, peerAddr)
+//@   ensures authHostAS(meta, localIA, peerAddr) ==> result == nil
+
+//@ func validateHostHostReq
+//@   props C40
+//@   requires tcpOK(peerAddr)
+//@   modifies nothing
+//@   ensures result == nil ==> authHostHost(meta, localIA, peerAddr)
+//@   ensures authHostHost(meta, localIA, peerAddr) ==> result == nil
+
+//@ # ---- gate ordering: the engine derives a key only for a request that passed its validator, against this
+//@ # server's AS (ghost curLocalIA) and the peer of this very RPC (ctxPeer(ctx)).
+//@ ghost var curLocalIA uint64
+//@ iface Engine.DeriveASHost
+//@   requires ctxPeer(ctx) != nil && authASHost(meta, addr.IA(curLocalIA), ctxPeer(ctx).Addr)
+//@ iface Engine.DeriveHostAS
+//@   requires ctxPeer(ctx) != nil && authHostAS(meta, addr.IA(curLocalIA), ctxPeer(ctx).Addr)
+//@ iface Engine.DeriveHostHost
+//@   requires ctxPeer(ctx) != nil && authHostHost(meta, addr.IA(curLocalIA), ctxPeer(ctx).Addr)
+
+//@ func requestToASHostMeta
+//@   props C40
+//@   requires req != nil
+//@   modifies nothing
+//@   ensures result1 == nil ==> result0.ProtoId == drkey.Protocol(req.ProtocolId) && result0.SrcIA == addr.IA(req.SrcIa) && result0.DstIA == addr.IA(req.DstIa) && result0.DstHost == req.DstHost
+//@ func requestToHostASMeta
+//@   props C40
+//@   requires req != nil
+//@   modifies nothing
+//@   ensures result1 == nil ==> result0.ProtoId == drkey.Protocol(req.ProtocolId) && result0.SrcIA == addr.IA(req.SrcIa) && result0.DstIA == addr.IA(req.DstIa) && result0.SrcHost == req.SrcHost
+//@ func requestToHostHostMeta
+//@   props C40
+//@   requires req != nil
+//@   modifies nothing
+//@   ensures result1 == nil ==> result0.ProtoId == drkey.Protocol(req.ProtocolId) && result0.SrcIA == addr.IA(req.SrcIa) && result0.DstIA == addr.IA(req.DstIa) && result0.SrcHost == req.SrcHost && result0.DstHost == req.DstHost
+
+//@ func keyToASHostResp
+//@   trusted
+//@   modifies nothing
+//@ func keyToHostASResp
+//@   trusted
+//@   modifies nothing
+//@ func keyToHostHostResp
+//@   trusted
+//@   modifies nothing
+
+//@ func (*Server).DRKeyASHost
+//@   props C40
+//@   requires d != nil && req != nil && d.Engine != nil && uint64(d.LocalIA) == curLocalIA
+//@ func (*Server).DRKeyHostAS
+//@   props C40
+//@   requires d != nil && req != nil && d.Engine != nil && uint64(d.LocalIA) == curLocalIA
+//@ func (*Server).DRKeyHostHost
+//@   props C40
+//@   requires d != nil && req != nil && d.Engine != nil && uint64(d.LocalIA) == curLocalIA
+
+//@ # ---- level-1 keys go to the AS named in the requester's client certificate. certIA(p) names the ISD-AS the
+//@ # certificate verifier extracted from the TLS client certificate of peer p (validateClientCertificate is the
+//@ # definition of that value: its body is certificate handling and is not verified).
+//@ spec func certIA(p *peer.Peer) uint64 uninterpreted
+//@ func (*Server).validateClientCertificate
+//@   trusted
+//@   modifies nothing
+//@   ensures result1 == nil ==> uint64(result0) == certIA(peer)
+//@ extern (github.com/scionproto/scion/pkg/drkey.Protocol).IsPredefined
+//@   modifies nothing
+//@ func getMeta
+//@   props C40
+//@   modifies nothing
+//@   ensures result1 == nil ==> result0.ProtoId == drkey.Protocol(protoId) && result0.SrcIA == srcIA && result0.DstIA == dstIA
+//@ iface Engine.DeriveLevel1
+//@   requires ctxPeer(ctx) != nil && uint64(meta.DstIA) == certIA(ctxPeer(ctx)) && uint64(meta.SrcIA) == curLocalIA
+//@ func keyToLevel1Resp
+//@   trusted
+//@   modifies nothing
+//@ func (*Server).DRKeyLevel1
+//@   props C40
+//@   requires d != nil && req != nil && d.Engine != nil && uint64(d.LocalIA) == curLocalIA
